@@ -8,10 +8,10 @@ package main
 
 import (
 	"encoding/json"
-	"io"
 	"flag"
 	"fmt"
 	"go/types"
+	"io"
 	"os"
 	"path/filepath"
 	"regexp"
@@ -27,24 +27,24 @@ import (
 )
 
 type HarnessSpec struct {
-	ID        string           `json:"id"`
-	Name      string           `json:"name"`
-	Pkg       string           `json:"pkg"`
-	Params    map[string]int64 `json:"params"`
-	Unwind    int              `json:"unwind"`
-	TimeoutMs int              `json:"timeout_ms"`
-	BudgetS   int              `json:"budget_s"`
-	MaxPaths  int              `json:"max_paths"`
-	MaxSteps  int              `json:"max_steps"`
-	MaxFork   int              `json:"max_fork"`
-	SymAlloc  int              `json:"max_sym_alloc"`
-	Stubs     map[string]string `json:"stubs"`
-	GoSync    []string          `json:"go_sync"`
-	GoDrop    []string          `json:"go_drop"`
-	MapRotate []string          `json:"map_rotate"` // functions (regex) whose map ranges start at an arbitrary entry
-	Trace     bool              `json:"trace"`
-	FallbackMs int              `json:"fallback_ms"`
-	FmtCalls  bool              `json:"fmt_calls"`
+	ID         string            `json:"id"`
+	Name       string            `json:"name"`
+	Pkg        string            `json:"pkg"`
+	Params     map[string]int64  `json:"params"`
+	Unwind     int               `json:"unwind"`
+	TimeoutMs  int               `json:"timeout_ms"`
+	BudgetS    int               `json:"budget_s"`
+	MaxPaths   int               `json:"max_paths"`
+	MaxSteps   int               `json:"max_steps"`
+	MaxFork    int               `json:"max_fork"`
+	SymAlloc   int               `json:"max_sym_alloc"`
+	Stubs      map[string]string `json:"stubs"`
+	GoSync     []string          `json:"go_sync"`
+	GoDrop     []string          `json:"go_drop"`
+	MapRotate  []string          `json:"map_rotate"` // functions (regex) whose map ranges start at an arbitrary entry
+	Trace      bool              `json:"trace"`
+	FallbackMs int               `json:"fallback_ms"`
+	FmtCalls   bool              `json:"fmt_calls"`
 }
 
 type Spec struct {
@@ -79,25 +79,25 @@ type Config struct {
 
 // default noise stubs: logging and printing never matter to a property here
 var defaultStubs = map[string]string{
-	`^golang.org/x/crypto/sha3\.xorInUnaligned$`:   "redirect:golang.org/x/crypto/sha3.xorInGeneric",
-	`^golang.org/x/crypto/sha3\.copyOutUnaligned$`: "redirect:golang.org/x/crypto/sha3.copyOutGeneric",
-	`^math/big\.addVV$`:     "redirect:math/big.addVV_g",
-	`^math/big\.subVV$`:     "redirect:math/big.subVV_g",
-	`^math/big\.addVW$`:     "redirect:math/big.addVW_g",
-	`^math/big\.subVW$`:     "redirect:math/big.subVW_g",
-	`^math/big\.shlVU$`:     "redirect:math/big.shlVU_g",
-	`^math/big\.shrVU$`:     "redirect:math/big.shrVU_g",
-	`^math/big\.mulAddVWW$`: "redirect:math/big.mulAddVWW_g",
-	`^math/big\.addMulVVW$`: "redirect:math/big.addMulVVW_g",
-	`^\(\*?go\.uber\.org/zap\.`:                           "noop",
-	`^go\.uber\.org/zap\.`:                                "opaque",
-	`^\(\*?go\.uber\.org/zap/zapcore\.`:                   "noop",
-	`^github\.com/dappledger/AnnChain/gemmill/go-utils/.*/log\.`: "noop",
-	`^\(\*?log\.Logger\)\.`:                               "noop",
-	`^log\.(Print|Fatal|Panic)`:                           "noop",
-	`^github\.com/dappledger/AnnChain/eth/log\.`:          "noop",
-	`^\(\*?github\.com/dappledger/AnnChain/eth/log\.`:     "noop",
-	`^github\.com/dappledger/AnnChain/gemmill/modules/go-log\.`: "noop",
+	`^golang.org/x/crypto/sha3\.xorInUnaligned$`:                     "redirect:golang.org/x/crypto/sha3.xorInGeneric",
+	`^golang.org/x/crypto/sha3\.copyOutUnaligned$`:                   "redirect:golang.org/x/crypto/sha3.copyOutGeneric",
+	`^math/big\.addVV$`:                                              "redirect:math/big.addVV_g",
+	`^math/big\.subVV$`:                                              "redirect:math/big.subVV_g",
+	`^math/big\.addVW$`:                                              "redirect:math/big.addVW_g",
+	`^math/big\.subVW$`:                                              "redirect:math/big.subVW_g",
+	`^math/big\.shlVU$`:                                              "redirect:math/big.shlVU_g",
+	`^math/big\.shrVU$`:                                              "redirect:math/big.shrVU_g",
+	`^math/big\.mulAddVWW$`:                                          "redirect:math/big.mulAddVWW_g",
+	`^math/big\.addMulVVW$`:                                          "redirect:math/big.addMulVVW_g",
+	`^\(\*?go\.uber\.org/zap\.`:                                      "noop",
+	`^go\.uber\.org/zap\.`:                                           "opaque",
+	`^\(\*?go\.uber\.org/zap/zapcore\.`:                              "noop",
+	`^github\.com/dappledger/AnnChain/gemmill/go-utils/.*/log\.`:     "noop",
+	`^\(\*?log\.Logger\)\.`:                                          "noop",
+	`^log\.(Print|Fatal|Panic)`:                                      "noop",
+	`^github\.com/dappledger/AnnChain/eth/log\.`:                     "noop",
+	`^\(\*?github\.com/dappledger/AnnChain/eth/log\.`:                "noop",
+	`^github\.com/dappledger/AnnChain/gemmill/modules/go-log\.`:      "noop",
 	`^\(\*?github\.com/dappledger/AnnChain/gemmill/modules/go-log\.`: "noop",
 }
 
